@@ -101,6 +101,9 @@ class SdcLocation:
         except UrlSchemeError:
             # Scope has different scheme, no match
             return False
+        except ValueError:
+            # Scope is not a location scope of the expected structure (or no valid url at all), no match
+            return False
         else:
             return other in self
 
